@@ -180,6 +180,12 @@ func (fc *FnCtx) specEval(env *SpecEnv, e SExpr) Val {
 		if c, ok := specConsts[e.Name]; ok {
 			return Val{c, intT}
 		}
+		if e.Name == "$sends" {
+			if s := env.state().sends; s != "" {
+				return Val{s, intT}
+			}
+			return Val{"0", intT}
+		}
 		if env.useVars {
 			if v, ok := env.lookupVarByName(e.Name); ok {
 				return v
@@ -716,6 +722,24 @@ func (fc *FnCtx) specCall(env *SpecEnv, e *SCall) Val {
 				as = append(as, fc.specEval(env, e.Args[i]))
 			}
 			return fc.callSpecFn(env, sf, nil, as)
+		}
+		// a package-level Go function with a pure contract
+		if env.pkg != nil {
+			if f, ok := env.pkg.Types.Scope().Lookup(id.Name).(*types.Func); ok {
+				if ct := fc.eng.contractFor(f, env.pkg); ct != nil && ct.Pure {
+					sig := f.Type().(*types.Signature)
+					var as []Val
+					for i := range e.Args {
+						a := fc.specEval(env, e.Args[i])
+						if i < sig.Params().Len() {
+							a.Ty = sig.Params().At(i).Type()
+						}
+						as = append(as, a)
+					}
+					ri := env.resIndex
+					return fc.pureApp(ct, nil, as, sig.Results().At(ri).Type(), ri)
+				}
+			}
 		}
 		sfail("unknown spec function %q", id.Name)
 	}
